@@ -141,7 +141,9 @@ pub fn owned<K: Ord + Clone, V>(
     map: HashMap<K, V>,
     site: &'static str,
 ) -> OrdMap<K, V> {
-    OrdMap(order(map.into_iter().collect(), site, |e: &(K, V)| e.0.clone()))
+    OrdMap(order(map.into_iter().collect(), site, |e: &(K, V)| {
+        e.0.clone()
+    }))
 }
 
 /// Take over an owned map of maps; only the inner maps are choice points (the
@@ -239,7 +241,9 @@ impl<'b, K, V> IntoIterator for &'b OrdMap<K, V> {
         fn split<K, V>(e: &(K, V)) -> (&K, &V) {
             (&e.0, &e.1)
         }
-        self.0.iter().map(split::<K, V> as fn(&'b (K, V)) -> (&'b K, &'b V))
+        self.0
+            .iter()
+            .map(split::<K, V> as fn(&'b (K, V)) -> (&'b K, &'b V))
     }
 }
 
